@@ -18,7 +18,9 @@ EXPLANATION = (
     "matrix only if len(rowval)=len(nzval), len(colptr)=n+1 and colptr[n]=nnz hold as equalities and colptr is monotone, and its "
     "per-entry part rejects only for a row-order violation inside a column or a row index >= m, each quantified over the stored "
     "entries (no aggregate with a default), and accepts only after the bound test; (R3s) the settings validator and the LDL "
-    "dispatcher compare the same function of the stored method string.")
+    "dispatcher compare the same function of the stored method string."
+    " R3 also: the parse entry point rejects trailing input (from_str / from_slice / from_reader, or Deserializer::end before the constructor)."
+    " (R6) units premises re-run: the stored data carry exactly the recorded scalings d, e, c (what the export divides by).")
 ASSUMPTIONS = ['rustc MIR construction and trait resolution are correct',
                'serde_json reports malformed / truncated text as Err', 'the closures of CscMatrix::check_format mean what they say for every column (index arithmetic of the slices: C16 territory)']
 
@@ -212,6 +214,20 @@ def load_discipline(rep, F, G, tag):
             else:
                 if len(val) >= len(RELATIONS):
                     R.check(is_ok, 'accepts-valid' + tag, 'the validator rejects consistent data: %s' % out, vf.loc())
+        # the whole file is one problem: the parse entry point must reject trailing input.  serde_json::from_str / from_slice /
+        # from_reader do (they call Deserializer::end); a hand-driven Deserializer must be followed by end() before the constructor
+        whole = [c for c in lf.calls if (c.callee.key or '') in ('serde_json::from_str', 'serde_json::from_slice', 'serde_json::from_reader',
+                                                                 'serde_json::de::from_str', 'serde_json::de::from_slice', 'serde_json::de::from_reader')]
+        manual = [c for c in lf.calls if c.callee.name == 'deserialize' and 'Deserializer' in (c.callee.fty or '')]
+        ends = [c for c in lf.calls if c.callee.name == 'end' and 'serde_json' in (c.callee.key or '') and lf.dominates(c.bb, nw.bb)]
+        R.check(len(whole) + len(manual) >= 1, 'parse-site' + tag, 'no serde_json parse entry point found in load_from_file', lf.loc())
+        for c in manual:
+            R.check(any(lf.dominates(c.bb, e.bb) for e in ends), 'whole-file-parsed' + tag,
+                    'load_from_file drives a serde_json Deserializer by hand and never calls end(): a file with anything after the first complete '
+                    'object (stale tail of an overwritten file, a stray brace that closes the object before "settings") loads silently instead of '
+                    'being reported', lf.loc(c.sp))
+        for c in whole:
+            R.check(lf.dominates(c.bb, nw.bb), 'whole-file-parsed' + tag, 'the parse does not dominate the constructor', lf.loc(c.sp))
         # settings validated too
         sv = [c for c in lf.calls if c.callee.name == 'validate' and lf.dominates(c.bb, nw.bb)]
         R.check(len(sv) >= 1, 'settings-validated' + tag, 'the settings taken from the file are not validated before use', lf.loc())
